@@ -86,6 +86,15 @@ struct GuardedWork {
         if (!buf.empty()) __asan_unpoison_memory_region(buf.data(), buf.size());
 #endif
     }
+    // check the guard zones and keep them armed (for histories of several calls into the same workspace)
+    bool verify(std::string &msg) {
+        bool ok = check(msg);
+#ifdef VF_HAVE_ASAN
+        __asan_poison_memory_region(buf.data(), (size_t)(work - buf.data()));
+        __asan_poison_memory_region(work + lwork, (size_t)(buf.data() + buf.size() - (work + lwork)));
+#endif
+        return ok;
+    }
 };
 
 inline uint64_t dig(uint64_t h, const void *p, size_t bytes) { return bytes ? fnv1a(p, bytes, h) : h; }
